@@ -100,6 +100,11 @@ def run_tlc(cwd, module, cfg=None, workers=1, timeout=600, extra=(), heap=None, 
         cmd += ["-config", cfg]
     cmd += list(extra) + [module]
     env = dict(os.environ)
+    # the JVM's default maximum heap is a quarter of the machine's memory: sixteen validations side by side
+    # were killed by the kernel. Cap every TLC run (trace validations need well under a gigabyte).
+    opts = env.get("JAVA_TOOL_OPTIONS", "")
+    if "-Xmx" not in opts:
+        env["JAVA_TOOL_OPTIONS"] = (opts + " -Xmx%s" % (heap or ("3g" if workers <= 2 else "8g"))).strip()
     t0 = time.time()
     try:
         p = subprocess.run(cmd, cwd=cwd, capture_output=True, text=True, timeout=timeout, env=env)
